@@ -903,7 +903,12 @@ type NegateNode struct {
 }
 
 func (n *NegateNode) String() string {
-	return "-" + operand(n.Arg, precUnary)
+	var arg = operand(n.Arg, precUnary)
+	if '0' <= arg[0] && arg[0] <= '9' {
+		// "-5" would be read as the literal -5, not as the negation of 5.
+		return "-(" + arg + ")"
+	}
+	return "-" + arg
 }
 
 func (n *NegateNode) Children() []Node {
